@@ -262,6 +262,13 @@ def h_dst_zones(x):
     obl.append(("dst-zone-through-setter", S.dt_us(e2.timestamp) == want - want % 1000))
     back = Event(**e.to_json_dict())
     obl.append(("json-roundtrip", And(S.dt_us(back.timestamp) == want - want % 1000, S.td_us(back.duration) == d, back.id == 1)))
+    # the other reading of the same wall clock time, same zone object, same process: its own instant
+    ts_o = wall.replace(tzinfo=zone, fold=1 - fold)
+    want_o = wall_us - (dstoff if zone._is_dst(ts_o) else std) * 60 * 10**6
+    e_o = Event(id=3, timestamp=ts_o, duration=x.td_us(d), data={})
+    obl.append(("dst-zone-other-fold-has-its-own-instant", S.dt_us(e_o.timestamp) == want_o - want_o % 1000))
+    e_again = Event(id=4, timestamp=ts, duration=x.td_us(d), data={})
+    obl.append(("dst-zone-same-input-same-instant-again", S.dt_us(e_again.timestamp) == want - want % 1000))
     return obl, [name, str(wall), fold]
 
 
